@@ -78,6 +78,7 @@ structure Flat where
 structure St where
   langs : Std.HashMap String LangInfo := {}
   cur : String := ""
+  exact : Bool := false
   -- current tree
   tcase : String := ""
   tlang : String := ""
@@ -103,7 +104,7 @@ def firstFail {α} (xs : List α) (f : α → Option String) : Option String :=
 def showName (bs : List Nat) : String := strOfHex (String.join (bs.map (fun b => (String.singleton (Nat.digitChar (b / 16))) ++ String.singleton (Nat.digitChar (b % 16)))))
 
 /-- language-level evaluation, printed at `endlang` -/
-def evalLang (id : String) (li : LangInfo) : String :=
+def evalLang (exact : Bool) (id : String) (li : LangInfo) : String :=
   let L := li.L
   let wf := tableWF L
   let states := List.range L.stateCount
@@ -118,7 +119,7 @@ def evalLang (id : String) (li : LangInfo) : String :=
     else if li.laEnd.getD s 1 != 0 then some s!"iterator-restarts state={s}"
     else if (li.rla.getD s []) != (li.la.getD s []).map (·.1) then some s!"rust-iterator state={s}"
     else none)
-  let T : SymTab := { syms := li.syms.toList.map (·.1), fieldNames := li.flds.toList.map (·.1) }
+  let T : SymTab := { exactError := exact, syms := li.syms.toList.map (·.1), fieldNames := li.flds.toList.map (·.1) }
   let corrNames :=
     (firstFail li.syms.toList (fun (si, real) =>
       if symbolForName T si.name si.named == real then none else some s!"symbol_for_name {showName si.name}")).orElse fun _ =>
@@ -128,7 +129,7 @@ def evalLang (id : String) (li : LangInfo) : String :=
       if fieldIdForName T name == real then none else some s!"field_id_for_name {showName name}"))
   let judgeNames :=
     (firstFail li.syms.toList (fun (si, real) =>
-      if si.hasKind && real != si.pub && !(si.named && isErrorPrefix si.name && real == errorSym) then
+      if si.hasKind && real != si.pub && !(si.named && isErrorPrefix si.name && real == errorSym && !exact) then
         some s!"symbol-roundtrip kind={showName si.name} named={si.named} got={real} want={si.pub}" else none)).orElse fun _ =>
     (firstFail li.syms.toList (fun (si, real) =>
       if si.hasKind && real != si.pub then some s!"symbol-roundtrip-error-prefix kind={showName si.name} named={si.named} got={real} want={si.pub}" else none)).orElse fun _ =>
@@ -186,6 +187,7 @@ def evalTree (s : St) (stats : String) : String :=
 def step (s : St) (line : String) : IO St := do
   let ws := line.splitOn " "
   match ws with
+  | ["cfg", "errormode", m] => return { s with exact := m == "exact" }
   | ["nodetypes", id, h] =>
     return s.upd id (fun li => { li with nt := parseNodeTypes (strOfHex h) })
   | ["rla", id, st, syms] =>
@@ -218,7 +220,7 @@ def step (s : St) (line : String) : IO St := do
   | ["probe", named, name, r] => return s.upd s.cur (fun li => { li with probes := li.probes.push (named == "1", bytesOfHex name, natOf r) })
   | ["fld", _, name, r] => return s.upd s.cur (fun li => { li with flds := li.flds.push (bytesOfHex name, natOf r) })
   | ["endlang", id] =>
-    IO.println (evalLang id (s.langs.getD id {}))
+    IO.println (evalLang s.exact id (s.langs.getD id {}))
     return s
   | "tree" :: cid :: lang :: status :: _ =>
     if status != "ok" then IO.println s!"{cid} skipped={status}"
